@@ -30,6 +30,10 @@
       `conj r · r` (`sqrt_box_doubled`), a square root of `|z|²` (`sqrt_box_doubled_sq`) — `1` for
       `sqrt(-1)`, not `-1` (`sqrt_minus_one`); covered by `pure_circuit_doubled` and
       `eval_mixed_flag` through `scalar_box_pure` / `LBox.NonMixed.scalar`.
+    * mixed scalars (`MixedScalar(z)`, `scalar(z, is_mixed=True)`): the weight `z` itself, not `|z|²`
+      (`mixed_scalar_entry`); the scalar box of the conjugate value with the SAME `is_mixed` flag —
+      what `Scalar.dagger` returns — is the adjoint, pure or mixed (`scalar_dagger_adjoint`,
+      `scalar_dagger_dagger`); with the flag forgotten it is not (example over ℤ[i]).
     * the `mixed=True` flag on circuits WITHOUT mixed boxes, whatever `is_mixed` says
       (`eval_mixed_flag`): the mixed evaluation of a well-typed circuit of classical gates on bits
       (Bits, ClassicalGate, Copy, Match, weights, flagged daggers), quantum boxes on qubits, pure
@@ -337,10 +341,41 @@ theorem phase_box_listed (z : R) (h : star z * z = 1) : LBox.Listed ⟨false, .s
 theorem phase_box_tp (z : R) (h : star z * z = 1) :
     (LBox.eval ⟨false, .scalar false z⟩ : CQMap R).TP := (phase_box_listed z h).tp
 
+/-! ## mixed scalars and the adjoints of scalar boxes -/
+
+/-- A scalar box on which the Born rule has already been applied (`MixedScalar(z)`,
+    `scalar(z, is_mixed=True)`, `Scalar(z, is_mixed=True)`; cqmap.py:293-295) is the weight `z`
+    ITSELF in the mixed evaluation — whatever its sign or phase — not `|z|²`. -/
+theorem mixed_scalar_entry (z : R) (c q p c' q' p' : Nat) :
+    (CBox.ar (.scalar true z) : CQMap R).f c q p c' q' p' = z := rfl
+
+/-- `gates.Scalar.dagger` (gates.py:557-566) returns the scalar box of the conjugate value WITH THE
+    SAME `is_mixed` flag; that box is interpreted as the adjoint of the interpretation of the
+    box, for pure scalars (`|conj z|² = conj |z|²`) and for mixed ones (the weight `conj z`). -/
+theorem scalar_dagger_adjoint (m : Bool) (z : R) :
+    (CBox.ar (.scalar m (star z)) : CQMap R) = (CBox.ar (.scalar m z) : CQMap R).dagger := by
+  cases m
+  · show CQMap.scalar (star (star z) * star z) = (CQMap.scalar (star z * z)).dagger
+    unfold CQMap.scalar CQMap.dagger
+    simp only [conj_eq_star, star_mul', star_star]
+  · rfl
+
+/-- and in particular the double dagger of a scalar box is interpreted as the box itself. -/
+theorem scalar_dagger_dagger (m : Bool) (z : R) :
+    (CBox.ar (.scalar m (star (star z))) : CQMap R) = CBox.ar (.scalar m z) := by
+  rw [star_star]
+
 section Examples
 open GaussianInt
 
 abbrev G := GaussianInt
+
+/-- Forgetting `is_mixed` in the dagger of a mixed scalar is NOT the adjoint: for the weight `i`
+    the pure scalar `conj i` doubles to `1`, the adjoint of the weight is `-i`. -/
+example : (CBox.ar (.scalar false (star (⟨0, 1⟩ : G))) : CQMap G).f 0 0 0 0 0 0 = 1
+    ∧ ((CBox.ar (.scalar true (⟨0, 1⟩ : G)) : CQMap G).dagger).f 0 0 0 0 0 0 = ⟨0, -1⟩
+    ∧ (CBox.ar (.scalar true (star (⟨0, 1⟩ : G))) : CQMap G).f 0 0 0 0 0 0 = ⟨0, -1⟩ := by
+  decide
 
 /-- Pauli Y over ℤ[i] (`array[input, output]`). -/
 def Y : Mat G := ⟨2, 2, fun i j => if i = 0 ∧ j = 1 then ⟨0, -1⟩ else if i = 1 ∧ j = 0 then ⟨0, 1⟩ else 0⟩
